@@ -1228,6 +1228,9 @@ class TaskPool:
                     and itask.state_reset(is_runahead=True)
                 ):
                     self.data_store_mgr.delta_task_state(itask)
+                    # (a task that was already queued must not be released
+                    # to run beyond the new stop point)
+                    self.unqueue_task(itask)
         return True
 
     def can_stop(self, stop_mode):
